@@ -193,6 +193,24 @@ PROPS = {
                         "panics inside dependencies on well-typed arguments are out of scope", "unwinding allocation failure is out of scope"],
         "technique": "static analysis: call-graph reachability + panic-site enumeration over MIR with CFG guard idioms; grammar nullability",
     },
+    "C05": {
+        "module": "c05",
+        "explanation": "R14: per AST variant (19 expressions, 5 statements, tuple and list literals), the printer arm is interpreted "
+                       "abstractly over every node shape (collections of 0..3 elements, Options both ways, every layout decision) and "
+                       "the symbol sequences it writes are compared with the parser rule instantiated from the macro DSL together with "
+                       "its binding->AST-field flow: whatever is written for a producible shape is accepted by the rule, and every "
+                       "sentence form of the rule has a printed form carrying the same fields in the same order. R15: float literals keep "
+                       "a decimal point. R16/R16m: a comment can only be consumed as a COMMENT token and tokenize moves every COMMENT into "
+                       "the map. R17/R17b: escape sets of printer and tokenizer agree, quoted payloads go through escape_quotes, bare field "
+                       "names are single barewords for the tokenizer. R79/R79t: pending comment groups are printed once, in key order, "
+                       "flushed at the end, and a comment line's layout is decided on the text printed. R8: operator spellings. Not "
+                       "decided: comment placement relative to nodes, blank-line policy, idempotence of layout for comments inside "
+                       "expressions, numeric value of floats after Display.",
+        "assumptions": ["sentence forms are bounded: collections up to 3 elements on both sides (the rules have no counting behaviour)",
+                        "node shapes the parser cannot produce are outside the property (one table entry, re-verified against the grammar)",
+                        "Display for f64 prints digits the tokenizer reads back to the same value (std property, not checked)"],
+        "technique": "static analysis: abstract interpretation of the printer's syntax tree vs grammar extracted from the parser macros; MIR path rules",
+    },
     "C20": {
         "module": "c20",
         "explanation": "R13L: the panic-site audit of C04 with the server's entry points (run_server, main_loop, handle_request, "
